@@ -468,8 +468,33 @@ async fn wire_history(rng: &mut Rng, srv: &wire::Server) -> usize {
         _ => (RecyclingMethod::Custom("SELECT 42".into()), format!("custom sql={}", hex(b"SELECT 42"))),
     };
     let has_query = !matches!(method, RecyclingMethod::Fast);
-    // two routes to the same pool: a hand-made manager, or `Config::create_pool`
-    let pool = if rng.chance(50) {
+    // three routes to the same pool: a hand-made manager, `Config::create_pool`, or a manager
+    // with a custom `Connect` whose connection task lingers after the connection is gone
+    let route = rng.below(3);
+    let pool = if route == 2 {
+        struct Lingering;
+        impl deadpool_postgres::Connect for Lingering {
+            fn connect(
+                &self,
+                pg_config: &tokio_postgres::Config,
+            ) -> std::pin::Pin<Box<dyn std::future::Future<Output = Result<(tokio_postgres::Client, tokio::task::JoinHandle<()>), tokio_postgres::Error>> + Send + '_>> {
+                let cfg = pg_config.clone();
+                Box::pin(async move {
+                    let (client, connection) = cfg.connect(NoTls).await?;
+                    let task = tokio::spawn(async move {
+                        let _ = connection.await;
+                        // the task outlives the connection: only `Client::is_closed` tells
+                        tokio::time::sleep(Duration::from_secs(3600)).await;
+                    });
+                    Ok((client, task))
+                })
+            }
+        }
+        let mut pg = tokio_postgres::Config::new();
+        pg.host("127.0.0.1").port(srv.port).user("u").dbname("d");
+        let mgr = deadpool_postgres::Manager::from_connect(pg, Lingering, ManagerConfig { recycling_method: method });
+        deadpool_postgres::Pool::builder(mgr).max_size(max).runtime(Runtime::Tokio1).build().unwrap()
+    } else if route == 1 {
         let mut pg = tokio_postgres::Config::new();
         pg.host("127.0.0.1").port(srv.port).user("u").dbname("d");
         let mgr = deadpool_postgres::Manager::from_config(pg, NoTls, ManagerConfig { recycling_method: method });
